@@ -19,6 +19,8 @@ import (
 	dbm "github.com/tendermint/tm-db"
 
 	bcv0 "github.com/tendermint/tendermint/blockchain/v0"
+	bcv1 "github.com/tendermint/tendermint/blockchain/v1"
+	bcv2 "github.com/tendermint/tendermint/blockchain/v2"
 	cfg "github.com/tendermint/tendermint/config"
 	"github.com/tendermint/tendermint/consensus"
 	"github.com/tendermint/tendermint/crypto/ed25519"
@@ -122,8 +124,9 @@ func (m *monDB) SetSync(k, v []byte) error {
 // ---- the reactor wrapper: sees every message the switch delivers to the reactor under test
 
 type bcWrapper struct {
-	*bcv0.BlockchainReactor
-	h *harness
+	p2p.Reactor // the reactor under test (blockchain v0; v1 / v2 in the thorough tier)
+	recv        func(p2p.Envelope)
+	h           *harness
 }
 
 func (w *bcWrapper) ReceiveEnvelope(e p2p.Envelope) {
@@ -141,22 +144,22 @@ func (w *bcWrapper) ReceiveEnvelope(e p2p.Envelope) {
 		} else if msg.Block != nil {
 			height = msg.Block.Header.Height
 		}
-		w.BlockchainReactor.ReceiveEnvelope(e)
+		w.recv(e)
 		w.h.log.add("block_delivered", name, height, info)
 	case *bcproto.StatusResponse:
-		w.BlockchainReactor.ReceiveEnvelope(e)
+		w.recv(e)
 		w.h.log.add("status_delivered", name, msg.Height, fmt.Sprintf("base=%d", msg.Base))
 	case *bcproto.NoBlockResponse:
-		w.BlockchainReactor.ReceiveEnvelope(e)
+		w.recv(e)
 		w.h.log.add("noblock_delivered", name, msg.Height, "")
 	default:
-		w.BlockchainReactor.ReceiveEnvelope(e)
+		w.recv(e)
 	}
 }
 
 func (w *bcWrapper) AddPeer(peer p2p.Peer) {
 	w.h.log.add("node_add_peer", w.h.nameOf(peer.ID()), 0, "")
-	w.BlockchainReactor.AddPeer(peer)
+	w.Reactor.AddPeer(peer)
 }
 
 func (w *bcWrapper) RemovePeer(peer p2p.Peer, reason interface{}) {
@@ -164,7 +167,7 @@ func (w *bcWrapper) RemovePeer(peer p2p.Peer, reason interface{}) {
 	if len(r) > 200 {
 		r = r[:200] + "…"
 	}
-	w.BlockchainReactor.RemovePeer(peer, reason)
+	w.Reactor.RemovePeer(peer, reason)
 	w.h.log.add("node_remove_peer", w.h.nameOf(peer.ID()), 0, r)
 }
 
@@ -208,7 +211,6 @@ func (cs *consStub) SwitchToConsensus(state sm.State, skipWAL bool) {
 
 type node struct {
 	sw         *p2p.Switch
-	bcR        *bcv0.BlockchainReactor
 	app        *recapp.App
 	conns      proxy.AppConns
 	stateStore sm.Store
@@ -254,7 +256,13 @@ func (h *harness) nameOf(id p2p.ID) string {
 	return string(id)
 }
 
+// vkey names the reactor version in the finding key (the keys are written for v0).
+func (h *harness) vkey(key string) string {
+	return strings.Replace(key, "v0-", h.sc.Version+"-", 1)
+}
+
 func (h *harness) liveFinding(key, what string) {
+	key = h.vkey(key)
 	h.mu.Lock()
 	h.live = append(h.live, Finding{key, what})
 	h.mu.Unlock()
@@ -363,9 +371,21 @@ func (h *harness) buildNode() {
 		}
 	}
 	n.state = st
-	n.bcR = bcv0.NewBlockchainReactor(st.Copy(), n.exec, n.blockStore, true)
-	n.bcR.SetLogger(nodeLog)
-	wrap := &bcWrapper{BlockchainReactor: n.bcR, h: h}
+	wrap := &bcWrapper{h: h}
+	switch sc.Version {
+	case "v1":
+		r := bcv1.NewBlockchainReactor(st.Copy(), n.exec, n.blockStore, true)
+		r.SetLogger(nodeLog)
+		wrap.Reactor, wrap.recv = r, r.ReceiveEnvelope
+	case "v2":
+		r := bcv2.NewBlockchainReactor(st.Copy(), n.exec, n.blockStore, true)
+		r.SetLogger(nodeLog)
+		wrap.Reactor, wrap.recv = r, r.ReceiveEnvelope
+	default:
+		r := bcv0.NewBlockchainReactor(st.Copy(), n.exec, n.blockStore, true)
+		r.SetLogger(nodeLog)
+		wrap.Reactor, wrap.recv = r, r.ReceiveEnvelope
+	}
 	stub := &consStub{h: h}
 	stub.BaseReactor = *p2p.NewBaseReactor("C13ConsensusStub", stub)
 	n.sw, h.nodeID = mkSwitch(p2pConfig(), "node", fmt.Sprintf("c13-node-%d", sc.Index),
@@ -398,25 +418,25 @@ type CommitCheck struct {
 }
 
 type Result struct {
-	Scenario     *Scenario     `json:"scenario"`
-	HandedOver   bool          `json:"handed_over"`
-	HandHeight   int64         `json:"handover_height"`
-	SkipWAL      bool          `json:"skip_wal"`
-	HandPanic    string        `json:"handover_panic,omitempty"`
-	HandStack    string        `json:"handover_stack,omitempty"`
-	Watchdog     bool          `json:"watchdog_fired"`
-	StoreBase    int64         `json:"store_base"`
-	StoreHeight  int64         `json:"store_height"`
-	Synced       int64         `json:"blocks_synced"`
-	LastSeen     *CommitCheck  `json:"last_seen_commit,omitempty"`
-	InterInvalid []CommitCheck `json:"intermediate_seen_commits_with_invalid_slots,omitempty"`
-	Peers        []PeerResult  `json:"peers"`
-	Findings     []Finding     `json:"findings"`
+	Scenario     *Scenario      `json:"scenario"`
+	HandedOver   bool           `json:"handed_over"`
+	HandHeight   int64          `json:"handover_height"`
+	SkipWAL      bool           `json:"skip_wal"`
+	HandPanic    string         `json:"handover_panic,omitempty"`
+	HandStack    string         `json:"handover_stack,omitempty"`
+	Watchdog     bool           `json:"watchdog_fired"`
+	StoreBase    int64          `json:"store_base"`
+	StoreHeight  int64          `json:"store_height"`
+	Synced       int64          `json:"blocks_synced"`
+	LastSeen     *CommitCheck   `json:"last_seen_commit,omitempty"`
+	InterInvalid []CommitCheck  `json:"intermediate_seen_commits_with_invalid_slots,omitempty"`
+	Peers        []PeerResult   `json:"peers"`
+	Findings     []Finding      `json:"findings"`
 	Counts       map[string]int `json:"counts"`
-	Events       []Event       `json:"events"`
-	HonestTip    int64         `json:"honest_tip"`
-	ElapsedMs    int64         `json:"elapsed_ms"`
-	Inconclusive string        `json:"inconclusive,omitempty"`
+	Events       []Event        `json:"events"`
+	HonestTip    int64          `json:"honest_tip"`
+	ElapsedMs    int64          `json:"elapsed_ms"`
+	Inconclusive string         `json:"inconclusive,omitempty"`
 }
 
 func (h *harness) checkCommit(ht int64, which string, cm *types.Commit) CommitCheck {
@@ -455,7 +475,7 @@ func (h *harness) checkCommit(ht int64, which string, cm *types.Commit) CommitCh
 func runScenario(sc *Scenario, w *world) *Result {
 	start := time.Now()
 	h := &harness{sc: sc, w: w, log: &evlog{}, handCh: make(chan struct{}), reconnects: map[string]int{}}
-	h.sched = newScheduler(sc.SchedSeed, sc.WindowMs, sc.HoldProb, h.log)
+	h.sched = newScheduler(sc.SchedSeed, sc.WindowMs, sc.HoldProb, sc.MaxPerWindow, h.log)
 	h.buildNode()
 	pc := p2pConfig()
 	for i := range sc.Peers {
@@ -547,6 +567,7 @@ func runScenario(sc *Scenario, w *world) *Result {
 
 func (h *harness) evaluate(res *Result) {
 	sc, w := h.sc, h.w
+	v0 := sc.Version == "v0"
 	n := h.node
 	evs := h.log.snapshot()
 	h.mu.Lock()
@@ -556,7 +577,7 @@ func (h *harness) evaluate(res *Result) {
 	connected := h.connectedAtHand
 	h.mu.Unlock()
 	add := func(key, format string, a ...interface{}) {
-		res.Findings = append(res.Findings, Finding{key, fmt.Sprintf(format, a...)})
+		res.Findings = append(res.Findings, Finding{h.vkey(key), fmt.Sprintf(format, a...)})
 	}
 	if !handed {
 		handSeq = len(evs)
@@ -689,11 +710,12 @@ func (h *harness) evaluate(res *Result) {
 	// back, and drops at most one other peer; one more evaluation of the same, by then stale, pair can
 	// be in flight while the requesters are being re-assigned and drop up to two more.  Hence at most
 	// three per liar; the +3 is slack.
-	if honestValDrops > 3*nLiars+3 {
+	if v0 && honestValDrops > 3*nLiars+3 {
 		add("v0-canonical-blocks-rejected", "honest peers were dropped %d times for \"validation error\" although only %d lying peers ever connected: the node rejects canonical blocks carrying their canonical commits", honestValDrops, nLiars)
 	}
 
-	short := !sc.Timeouts && res.ElapsedMs < 25000 // below the pool's 30 s request retry and 15 s peer timeout
+	// O6 and O7 are argued from the v0 pool's code paths and hold below its 30 s request retry and 15 s peer timeout
+	short := v0 && !sc.Timeouts && res.ElapsedMs < 25000
 	if handed {
 		H := handState.LastBlockHeight
 		// O5: the state handed to consensus is the canonical state after H
